@@ -116,6 +116,9 @@ pub fn get(prop: &str, tier: &str) -> Option<Check> {
                 batches.push(Batch { name: "rtu_server_model_faults", f: scen::rtu::run_server_model, cfg: cfg(Mode::LockStep, true, 0), runs: n(30_000, 800_000), real: REAL_SERVER_RTU, stub: STUB_SERVER_RTU });
                 batches.push(Batch { name: "retry_strategy_object", f: scen::client::run_retry_object, cfg: cfg(Mode::LockStep, false, 0), runs: n(50_000, 1_000_000), real: "rodbus doubling_retry_strategy (Doubling)", stub: "none (pure state machine, no simulation involved)" });
             }
+            if p == "C10" || p == "C13" {
+                batches.push(Batch { name: "client_blocked_write", f: scen::robust::run_client_blocked_write, cfg: cfg(Mode::Racy, true, 0), runs: n(5_000, 150_000), real: REAL_CLIENT_TCP, stub: STUB_CLIENT_TCP });
+            }
             if p == "C10" {
                 batches.push(Batch { name: "ffi_client", f: scen::ffi::run_client, cfg: cfg(Mode::LockStep, false, 0), runs: n(10_000, 300_000), real: REAL_FFI, stub: STUB_FFI });
             }
@@ -150,6 +153,7 @@ pub fn get(prop: &str, tier: &str) -> Option<Check> {
             batches: vec![
                 Batch { name: "level_storm_stalled_session", f: scen::server_tcp::run_level_storm, cfg: cfg(Mode::LockStep, true, 0), runs: n(10_000, 300_000), real: REAL_SERVER_TCP, stub: STUB_SERVER_TCP },
                 Batch { name: "server_sessions", f: scen::sessions::run_sessions, cfg: cfg(Mode::LockStep, false, 0), runs: n(100_000, 3_000_000), real: REAL_SERVER_TCP, stub: STUB_SERVER_TCP },
+                Batch { name: "server_sessions_stalled_peers", f: scen::sessions::run_sessions, cfg: cfg(Mode::LockStep, true, 0), runs: n(30_000, 1_000_000), real: REAL_SERVER_TCP, stub: STUB_SERVER_TCP },
                 Batch { name: "tls_handshake_stall_server", f: scen::tls::run_handshake_stall, cfg: cfg(Mode::Racy, true, 1), runs: n(600, 20_000), real: REAL_TLS, stub: STUB_TLS },
                 Batch { name: "server_tcp_racy", f: scen::server_tcp::run_racy, cfg: cfg(Mode::Racy, true, 0), runs: n(30_000, 1_000_000), real: REAL_SERVER_TCP, stub: STUB_SERVER_TCP },
                 Batch { name: "tls_server_sessions", f: scen::tls::run_tls_sessions, cfg: cfg(Mode::LockStep, false, 0), runs: n(3_000, 100_000), real: REAL_TLS, stub: STUB_TLS },
